@@ -25,7 +25,7 @@ YOUR TASK: make ONE small change to the library source (files under {wt}/mpgames
 
 Requirements:
 1. Run the existing tests with the change applied:  cd {wt} && /venv/bin/python -m pytest -q -p no:cacheprovider --timeout=900   (89 tests; tests/server_test.py::Server2TestCase::test_server_disconnect is timing sensitive - if it alone fails, re-run it). All must pass. /venv/bin/python run from inside the worktree imports the worktree's copy of the package.
-2. Write a demonstration script {wt}/demo.py (plain Python using only the library and the standard library, no pytest needed; it may drive ConnectionBase / ClientServerConnection / ServerClientConnection objects directly with a fake clock the way tests/connection_test.py does, or call the pure functions involved). `cd {wt} && /venv/bin/python demo.py` must exit 0 on the ORIGINAL code and exit 1 - printing what went wrong - WITH your change. Check both: use `git stash` / `git stash pop` to switch. Source files use CRLF line endings; keep them.
+2. Write a demonstration script {wt}/demo.py (plain Python using only the library and the standard library, no pytest needed; it may drive ConnectionBase / ClientServerConnection / ServerClientConnection objects directly with a fake clock the way tests/connection_test.py does, or call the pure functions involved). `cd {wt} && /venv/bin/python demo.py` must exit 0 on the ORIGINAL code and exit 1 - printing what went wrong - WITH your change. Check both. To switch, do NOT use `git stash` (all scratch worktrees on this machine share one stash stack and other people are using it): save your change with `git diff > /tmp/seed/change_{pid}_{n}.patch`, go back to the original with `git checkout -- mpgameserver`, and restore your change with `git apply /tmp/seed/change_{pid}_{n}.patch`. Never use `pkill`/`killall` with a pattern (other people run the same commands); kill only PIDs you started. Source files use CRLF line endings; keep them.
 3. Leave your change applied as UNCOMMITTED modifications in the worktree (so that `git -C {wt} diff` shows exactly the change) and leave demo.py there as an untracked file. Do not commit, do not create other worktrees.
 4. Finish with a short report: the diff, why it violates the property, exactly what is needed for it to manifest, and the commands you ran with their results (tests with change: N passed; demo.py exit codes with and without the change).
 """)
